@@ -18,15 +18,24 @@ Fixpoint starts_with (prefix s : bytes) : option bytes :=
 
 Definition SP : N := 32.
 
-(* nom space1 / Tokenizer::consume_space1: one or more ' ' *)
+(* Tokenizer::consume_space1: one or more ' ' *)
 Fixpoint skip_spaces (s : bytes) : bytes :=
   match s with c :: r => if c =? SP then skip_spaces r else s | [] => [] end.
 Definition space1 (s : bytes) : option bytes :=
   match s with c :: r => if c =? SP then Some (skip_spaces r) else None | [] => None end.
 
-(* nom `tag(t)` followed by space1 *)
+(* `tag(t)` followed by Tokenizer::consume_space1 *)
 Definition tag_sp (t : bytes) (s : bytes) : option bytes :=
   match starts_with t s with Some r => space1 r | None => None end.
+
+(* nom::character::complete::space1: one or more ' ' or '\t' (the FILE / INLINE_ORIGIN / PUBLIC / FUNC / MODULE / INFO record parsers) *)
+Definition is_blank (c : N) : bool := (c =? SP) || (c =? 9).
+Fixpoint skip_blanks (s : bytes) : bytes :=
+  match s with c :: r => if is_blank c then skip_blanks r else s | [] => [] end.
+Definition space1n (s : bytes) : option bytes :=
+  match s with c :: r => if is_blank c then Some (skip_blanks r) else None | [] => None end.
+Definition tag_spn (t : bytes) (s : bytes) : option bytes :=
+  match starts_with t s with Some r => space1n r | None => None end.
 
 Definition dec_digit (c : N) : option N := if (48 <=? c) && (c <=? 57) then Some (c - 48) else None.
 Definition hex_digit (c : N) : option N :=
